@@ -1171,9 +1171,9 @@ def bl4(ctx, R):
                     "TdmsTimestamp(val[idx[0]], val[idx[1]])", "scalar access builds TdmsTimestamp(seconds=%s, second_fractions=%s)" % (
                         show(alpha(a))[:60] if a else None, show(alpha(b))[:60] if b else None))
     # 7: TimestampDataReceiver: native layout + copies by field name
-    fi = prog.func("channel_data.TimestampDataReceiver.append_data")
+    tdr = prog.cls("channel_data.TimestampDataReceiver")
     n_assign = 0
-    for n in walk_body(fi.node):
+    for fi, n in [(m, n) for _nm, m in sorted(tdr.methods.items()) for n in walk_body(m.node)]:
         if isinstance(n, ast.Assign) and len(n.targets) == 1 and isinstance(n.targets[0], ast.Subscript):
             t = n.targets[0]
             base = t.value
@@ -1181,7 +1181,7 @@ def bl4(ctx, R):
                 n_assign += 1
                 # positional (whole-record) store: only allowed for converted datetime64 data
                 conv = isinstance(n.value, ast.Call) and isinstance(n.value.func, ast.Attribute) and n.value.func.attr == "as_datetime64"
-                R.check(conv, "channel_data.TimestampDataReceiver.append_data::store self.data[...]", fi.where(n),
+                R.check(conv, "channel_data.TimestampDataReceiver::store self.data[...]", fi.where(n),
                         "stores converted datetime64 values",
                         "raw timestamp records are copied positionally (`%s`): NumPy assigns structured arrays by field position, and "
                         "big-endian chunks have the fields in the opposite order" % unparse(n))
@@ -1190,10 +1190,10 @@ def bl4(ctx, R):
                 fld = base.slice.value
                 v = n.value
                 same_ = isinstance(v, ast.Subscript) and isinstance(v.slice, ast.Constant) and v.slice.value == fld
-                R.check(same_, "channel_data.TimestampDataReceiver.append_data::field %s" % fld, fi.where(n),
+                R.check(same_, "channel_data.TimestampDataReceiver::field %s" % fld, fi.where(n),
                         "copies field %r by name" % fld, "field %r is filled from `%s`" % (fld, unparse(v)))
     if n_assign < 1:
-        raise AnchorMissing("channel_data.TimestampDataReceiver.append_data: stores into self.data")
+        raise AnchorMissing("channel_data.TimestampDataReceiver: stores into self.data")
 
 
 def _endian_branches(fi):
